@@ -94,7 +94,10 @@ def run(ctx):
              "Run twice where guarded by a once, WaitStop from the very beginning; every family on every executor). "
              "Further plan dimensions: queue size -1 / MaxInt / option not given, lanes 1..7, RunnerQ without wait "
              "group, callee returning value and error together, a running callee submitting a call to its own "
-             "executor (released through that call's context if it queued behind itself), getters as events. Stop "
+             "executor (released through that call's context if it queued behind itself), getters as events, a slow "
+             "submitter (its context's first Done() is held until a `done` step / yields in free-running mode, so "
+             "that the lane's answer - or skip - for a pre-ended context is there before the caller looks; such "
+             "callers are exempt from 'reply delivered' at a quiet point while held, never at the final one). Stop "
              "is never called on the driver: `stopr` is logged when it returns, a parked Stop is legal until the "
              "final quiescent point (consumers started, Stop called, every gate opened), where Final must hold",
         explanation="callee start/end with the lane index handed over, every caller's reply, and at each quiescent "
